@@ -538,6 +538,13 @@ func (w *World) oraclePunishment(bi *BlockInfo) {
 				w.violate("C14", "jailed-without-offence", "no-offence", "height %d: validator %x jailed with %d misses in the window (max %d)", b.Height, []byte(a)[:4], ws.missed, params.MaxMissedPerWindow)
 			}
 		}
+		// only active validators are counted for downtime
+		if cv.Status == lockingtypes.Downgrade && pv.Status != lockingtypes.Downgrade && pv.Status != lockingtypes.Active {
+			w.violate("C14", "non-active-jailed", "jailed-from-"+pv.Status.String(), "height %d: validator %x went from %s to jailed (downtime applies to active validators only)", b.Height, []byte(a)[:4], pv.Status)
+		}
+		if pv.Status != lockingtypes.Active && cv.Status == pv.Status && cv.SigningInfo.Missed > pv.SigningInfo.Missed {
+			w.violate("C14", "inactive-counted", "inactive-counted", "height %d: validator %x (status %s) had its missed-blocks counter raised %d -> %d", b.Height, []byte(a)[:4], pv.Status, pv.SigningInfo.Missed, cv.SigningInfo.Missed)
+		}
 		if pv.Status == lockingtypes.Downgrade && cv.Status != lockingtypes.Downgrade && cv.Status != lockingtypes.Tombstoned && cv.Status != lockingtypes.Inactive {
 			// unjailed: only after the jail time and with every threshold met
 			w.probe("unjailed")
